@@ -61,7 +61,7 @@ def present(group, style):
 
 def check_omega(ctx, case):
     seq = case["seq"]
-    o = util.sp(seq)
+    o = util.spw(seq, case)
     om = o.get_Omega()
     rec = "".join("E" if r in ref.OMEGA_X else "K" for r in seq)
     both = any(r in ref.OMEGA_X for r in seq) and any(r not in ref.OMEGA_X for r in seq)
@@ -72,7 +72,7 @@ def check_omega(ctx, case):
     if not any(((om == -1) == (r == -1)) and (om == -1 or ref.close(om, r)) for r in refs) and not edge:
         ctx.fail("omega=reference", "get_Omega()=%r, reference kappa of recoded pattern %r" % (om, refs), case)
     want = "".join("X" if r in ref.OMEGA_X else "O" for r in seq)
-    got = util.sp(seq).get_Omega_sequence()
+    got = util.spw(seq, case).get_Omega_sequence()
     ctx.check(got == want, "omega-sequence", "get_Omega_sequence()=%r, expected %r" % (got, want), case)
     # kappa == kappa_X(ED, KR)
     raw = case.get("raw", seq)
@@ -163,7 +163,7 @@ def styles(n):
                      st.sampled_from(["list", "tuple", "set", "string"])).map(list)
 
 
-BAD = ["X", "B", "Z", "J", "O", "U", "1", "*", "-", " ", "EK", "", "é", 5, None]
+BAD = ["X", "B", "Z", "J", "O", "U", "1", "*", "-", " ", "EK", "", "é", 5, None, "DE", "ST", "KLMN", "de", "AC", "RHK", "ala", "E,D", "ED "]
 
 
 @st.composite
@@ -171,7 +171,7 @@ def hyp_case(draw, max_len):
     seq = draw(gens.sequences(max_len=max_len))
     kind = draw(st.sampled_from(["omega", "groups", "groups", "groups", "invalid", "history"]))
     if kind == "omega":
-        case = {"kind": kind, "seq": seq}
+        case = {"kind": kind, "seq": seq, "warm": draw(gens.warmups(3)) if len(seq) <= 40 else []}
         if draw(st.integers(0, 2)) == 0:
             style = draw(st.sampled_from(["blocks", "wrapped", "padded", "lower"]))
             case["raw"] = {"blocks": " ".join(seq[i:i + 10] for i in range(0, len(seq), 10)), "wrapped": "\n".join(seq[i:i + 20] for i in range(0, len(seq), 20)) + "\n",
